@@ -1941,7 +1941,7 @@ fn main() {
     let args = Args::parse();
     quiet_panics();
     let mut s = Session::new(&args.out);
-    s.rule = "seeded cases per area: encoding tables (CKey/EKey page sizes 1-4 KiB, entry counts at every page-capacity multiple ±1 up to 3 (thorough 6) pages, 1..n EKeys per CKey incl. a page-filling entry; keys random / sharing all but the last 1-2 bytes / dense ±1 counters / all-00 and all-FF), CDN archive indices for every key size 1..16 × offset width 4/5/6 (entry counts at block-capacity multiples ±1), archive groups (157/158, 314/315/316 … entries), root manifests V1–V4 × named/unnamed × file counts {1,2,15,16,17,20,50,99,100,101,…} × 1–4 blocks, multi-block root manifests V1–V4 × {no name hashes, numeric hashes, paths, named+unnamed blocks mixed} × {blocks differing in locale only / content flags only / locale×content grid / overlapping multi-bit locale masks with nested content flags} with 1..150 (thorough 400) files each listed by several of the 2–5 blocks with the identical content key, one key per block or two key groups (also one name hash under two FileDataIDs), looked up by id / name hash / path under EVERY block's own (locale, content flags), single locale bits, unions, all-locales, stricter content, empty and unused locale masks, plus the lookup tables' entry lists (get_entries_by_id / get_entries_by_path) and lookup_stats, TVFS path trees (names 1..254 bytes, depth ≤ 12, 255/256/300-byte names as the recorded finding), resolver chain (files in one block and files listed by 2–3 locale/content blocks with shared or per-block content keys); probes = every inserted key, key±1, extremes, random, truncated/over-long keys, shuffled batches with repeats. non-trivial = case built and parsed and reached the lookups; distinct = canonical case parameters + first key".into();
+    s.rule = "seeded cases per area: encoding tables (CKey/EKey page sizes 1-4 KiB, entry counts at every page-capacity multiple ±1 up to 3 (thorough 6) pages, 1..n EKeys per CKey incl. a page-filling entry; keys random / sharing all but the last 1-2 bytes / dense ±1 counters / all-00 and all-FF), CDN archive indices for every key size 1..16 × offset width 4/5/6 (entry counts at block-capacity multiples ±1), archive groups (157/158, 314/315/316 … entries), archive groups MERGED from 1–5 archive indices (build_merged k-way heap merge and ArchiveGroupBuilder::add_archive on the same parsed indices, compared byte for byte) × 9 sharing patterns (random subsets, disjoint, identical archives, one key shared by all archives at the start / middle / end of the key range with private entries after it, subsets of the first archive, neighbour chains, an empty archive) × 2–13 keys and key counts around the 157-record block capacity, archive numbers in no order, a different (size, offset) per listing, root manifests V1–V4 × named/unnamed × file counts {1,2,15,16,17,20,50,99,100,101,…} × 1–4 blocks, the name-hash matrix V1–V4 × {every / no / some records named} × {no / every / some blocks with NO_NAME_HASH} × 1–4 blocks (records whose name presence disagrees with the block format included: the reference follows the writer's rule — hash 0 stored for an unnamed record of a named block, a name given into a NO_NAME_HASH block not stored) with every record looked up under its own block's flags, multi-block root manifests V1–V4 × {no name hashes, numeric hashes, paths, named+unnamed blocks mixed} × {blocks differing in locale only / content flags only / locale×content grid / overlapping multi-bit locale masks with nested content flags} with 1..150 (thorough 400) files each listed by several of the 2–5 blocks with the identical content key, one key per block or two key groups (also one name hash under two FileDataIDs), looked up by id / name hash / path under EVERY block's own (locale, content flags), single locale bits, unions, all-locales, stricter content, empty and unused locale masks, plus the lookup tables' entry lists (get_entries_by_id / get_entries_by_path) and lookup_stats, TVFS path trees (names 1..254 bytes, depth ≤ 12, 255/256/300-byte names as the recorded finding), TVFS builder configurations: all 8 flag combinations INCLUDE_CKEY|ENCODING_SPEC|PATCH_SUPPORT × EST {none, short, 2-byte-offset size, 254..257 bytes} × 9..21 files (the 255-byte container-table boundary of every entry size 13..26) + one 22..120-file tree each, files added with and without an EST index, and the 64 KiB container-table crossing (file counts where n·entry_size passes 65535 for the entry with 1-, 2- and 3-byte patch offsets ±1: INCLUDE_CKEY|PATCH_SUPPORT at 2731 files always, two more configurations per seed, all in the thorough tier), resolver chain (files in one block and files listed by 2–3 locale/content blocks with shared or per-block content keys); probes = every inserted key, key±1, extremes, random, truncated/over-long keys, shuffled batches with repeats. non-trivial = case built and parsed and reached the lookups; distinct = canonical case parameters + first key".into();
     let mut rng = Rng::new(args.seed);
     let mut im = Impl::new();
 
